@@ -191,3 +191,40 @@ def class_ok(res, kind, n, has_free):
         return name == want, want
     want = CLASSNAMES[(kind, has_free)][0]
     return name == want, want
+
+
+# ---------------------------------------------------------------------------------
+# the public entry points of join / meet (functions and methods) judged by the same contracts as the internal dispatcher:
+# a refactor that gives one of them its own code path (a "fast path" that no longer goes through _join_meet_duality) stays observed
+# ---------------------------------------------------------------------------------
+
+def _adapt(post, intersect, has_flags):
+    from .. import core
+
+    def adapted(ctx, call):
+        kw = {"intersect_lines": intersect,
+              "check_dependence": call.kwargs.get("_check_dependence", True) if has_flags else True,
+              "normalize_result": call.kwargs.get("_normalize_result", True) if has_flags else False}  # methods: no un-normalised twin
+
+        def orig(*a, **k):
+            if has_flags:
+                return call.orig(*a, _check_dependence=k.get("check_dependence", True), _normalize_result=k.get("normalize_result", True))
+            return call.orig(*a)
+
+        c = core.Call(call.name, call.args, kw, call.depth, orig)
+        c.result, c.exc = call.result, call.exc
+        post(ctx, c)
+
+    return adapted
+
+
+def install_public(post):
+    from .. import core
+    import geometer.point as P
+
+    core.wrap_function(P, "join", _adapt(post, False, True))
+    core.wrap_function(P, "meet", _adapt(post, True, True))
+    core.wrap_method(P.PointTensor, "join", _adapt(post, False, False))
+    core.wrap_method(P.SubspaceTensor, "join", _adapt(post, False, False))
+    core.wrap_method(P.SubspaceTensor, "meet", _adapt(post, True, False))
+    core.wrap_method(P.LineTensor, "meet", _adapt(post, True, False))
